@@ -9,6 +9,7 @@ Index column d of row r is (r // stride_d) % sizes[d], stride_d = product of the
 dimensions listed before d in `rate`.
 """
 import itertools
+import random
 import numpy as np
 import h5py
 
@@ -81,6 +82,11 @@ def gen_side(rng, prefix, max_dims=3, max_size=4, min_dims=1, size_bias=True, un
             else:
                 j = rng.randrange(1, sizes[d])
                 values[d][j] = values[d][rng.randrange(0, j)]
+    # the names must not be alphabetical in file order every time (np.unique / setdiff1d / sorted() reorder names).
+    # Decided by a generator of its own, keyed by what has been drawn, so that the stream of `rng` is what it was
+    own = random.Random(repr((prefix, sizes, rate, values)))
+    if k > 1 and own.random() < 0.5:
+        own.shuffle(labels)
     return {'sizes': sizes, 'rate': rate, 'labels': labels, 'units': units, 'values': values}
 
 
